@@ -78,6 +78,10 @@ fn gen_program(entropy: &[u8]) -> Prog {
             }
         };
         let mut fs = vec![(Lab::Named(a.into()), pay(&mut e)), (Lab::Named(b.into()), pay(&mut e))];
+        // sometimes a third case: then it is an ordinary variant, not a result
+        if e.ratio(1, 3) {
+            fs.push((Lab::Named((*e.pick(&["Timeout", "pending", "A", "zzz"])).into()), pay(&mut e)));
+        }
         fs.sort_by_key(|f| f.0.id());
         let v = Ty::Variant(fs);
         let name = if p.env.get("transfer_result").is_none() { "transfer_result" } else { "transfer_result_2" };
